@@ -79,10 +79,12 @@ type Run struct {
 	InstIDs    []string
 
 	StartReturned bool
-	OnTrace       func(seq int, t tracing.ITrace) // called by the reader after recording each trace
-	AfterStart    func()                          // called by the starter goroutine once StartAll has returned
-	StartErr      error
-	Waits         []*Wait
+	// ThrowAllToo: StartAll is followed by ThrowAll (the intermediate throw events are triggered too)
+	ThrowAllToo bool
+	OnTrace     func(seq int, t tracing.ITrace) // called by the reader after recording each trace
+	AfterStart  func()                          // called by the starter goroutine once StartAll has returned
+	StartErr    error
+	Waits       []*Wait
 
 	announced  map[string]bool
 	born       map[string]bool
@@ -278,6 +280,9 @@ func (r *Run) onTrace(raw tracing.ITrace) {
 func (r *Run) StartAll() {
 	go func() {
 		r.StartErr = r.P.StartAll(r.Ctx)
+		if r.ThrowAllToo && r.StartErr == nil {
+			r.StartErr = r.P.ThrowAll(r.Ctx)
+		}
 		r.StartReturned = true
 		if r.AfterStart != nil {
 			r.AfterStart()
